@@ -315,7 +315,7 @@ func checkC26(c *Ctx, r *Report) {
 		for _, call := range callsIn(fn) {
 			n := calleeName(call.Common())
 			if n == "bufio.NewReader" || n == "bufio.NewReaderSize" {
-				if fn.Name() != "ReadProxyProtocol" {
+				if shortName(fn) != "ReadProxyProtocol" {
 					r.viol("C26.R2", fn.Name()+" creates no second reader", m.Pos(call.Pos()), "a second bufio.Reader is created inside the parser")
 				}
 				continue
@@ -339,7 +339,7 @@ func checkC26(c *Ctx, r *Report) {
 			}
 			if !isParam {
 				r.viol("C26.R2", key, m.Pos(call.Pos()), "reads from "+describe(rdr)+" instead of the reader it was given")
-			} else if consuming(n) && !mayConsume[fn.Name()] {
+			} else if consuming(n) && !mayConsume[shortName(fn)] {
 				r.viol("C26.R2", key, m.Pos(call.Pos()), "bytes are consumed before a PROXY header has been recognised: a connection without a header would lose them")
 			} else {
 				r.ok("C26.R2", key, m.Pos(call.Pos()), "")
